@@ -11,6 +11,9 @@ import PyModeS.Tie.Bds45
 import PyModeS.Tie.Bds50
 import PyModeS.Tie.Bds53
 import PyModeS.Tie.Bds60
+
+-- symbolic execution of long generated `do` blocks: generous but finite budget (proof times are seconds)
+set_option maxHeartbeats 1000000
 namespace PyModeS.C11Gen
 open PyModeS PyModeS.Py PyModeS.CRC PyModeS.C11
 
